@@ -7,7 +7,11 @@ SQ == {"ab", "x y", "q\"t", "b\\s", "{z}", "e'f"}
 GridT == {"ilit", "bin", "cmp", "print"}
 AllT == {"ilit", "flit", "slit", "bin", "fbin", "cmp", "scat", "interp", "print", "ifp", "call", "loop", "wloop",
          "lmk", "lcat", "llen", "lget", "assert", "tpat"}
+OptT == AllT \cup {"uprint"}
+UnusedT == {"ilit", "bin", "cmp", "print", "uprint", "call", "lmk", "lget"}
 IG == {"m7", "0", "2", "i31", "i63"}
+IU == {"0", "2"}
+SU == {"ab"}
 NoF == {}
 NoS == {}
 ====
